@@ -252,8 +252,15 @@ class C17(Prop):
         other.mkdir()
         fa0, agp0 = C.write_inputs(root / "otherin", True)
         C.run_cli(["-a", fa0, "-p", agp0, "-o", other / "y.fa"])
-        r = C.run_cli(["-a", ind / "in.fa", "-p", ind / "in.pretext.agp", "-o", od / "x.fa"])
+        r = C.run_cli(["-a", ind / "in.fa", "-p", ind / "in.pretext.agp", "-o", od / "x.fa"], leave_logging=True)
         res["inproc"] = (r.exit_code, read_outputs(od, strip + [str(od)]))
+        # ... and BEFORE other invocations: what was written for these inputs must not change when the
+        # same process goes on to run other inputs (without a log file of their own, to STDOUT)
+        later = root / "later"
+        later.mkdir()
+        C.run_cli(["-a", fa0, "-p", agp0, "-o", later / "z.tpf", "--no-write-log"])
+        C.run_cli(["-a", fa0, "-p", agp0])
+        res["inproc_then_others"] = (r.exit_code, read_outputs(od, strip + [str(od)]))
         shutil.rmtree(root, ignore_errors=True)
         return {k: {"rc": v[0], "files": v[1]} for k, v in res.items()}
 
@@ -309,7 +316,7 @@ class C17(Prop):
                     return f"remapping the same inputs again in the same process (run {k + 2}) gave a different result"
             return None
         base = obs["base"]
-        same_as_base = ["warm", "bufcold", "buf7", "buf200", "seed24", "seed3", "seed7", "seed101", "relcwd", "inproc"]
+        same_as_base = ["warm", "bufcold", "buf7", "buf200", "seed24", "seed3", "seed7", "seed101", "relcwd", "inproc", "inproc_then_others"]
         for k in same_as_base:
             v = obs[k]
             if v["rc"] != base["rc"]:
